@@ -117,15 +117,17 @@ def registry_rules(ctx, rule: str):
     elts = [n.elt for n in ast.walk(it.node) if isinstance(n, ast.GeneratorExp)] + [n.value for n in ast.walk(it.node) if isinstance(n, ast.Yield) and n.value is not None]
     ok = ("tar" in _src(it, it.node) and not any(isinstance(n, ast.If) for n in ast.walk(it.node)) and bool(elts)
           and all(isinstance(x, ast.Attribute) and x.attr == "name" and isinstance(x.value, ast.Name) for x in elts))
+    ok = ok or _returns_only(it, ("iter(self._data)", "iter(self._data.keys())"))
     r.ob(rule + ".embedded-siblings", it.qualname, ok, "iteration must yield every archive member name", it.where())
     ok = "getmembers()" in _src(ln, ln.node) and "len(" in _src(ln, ln.node) and not any(isinstance(n, (ast.If, ast.BinOp)) for n in ast.walk(ln.node))
-    r.ob(rule + ".embedded-siblings", ln.qualname, ok, "the length must be the number of archive members", ln.where())
+    ok = ok or _len_via_iteration(ln) or _returns_only(ln, ("len(self._data)",))
+    r.ob(rule + ".embedded-siblings", ln.qualname, ok, "the length must be the number of archive members (or be derived from the iteration / the table itself)", ln.where())
     rets = [n for n in ast.walk(gi.node) if isinstance(n, ast.Return)]
     ok = len(rets) == 1 and _src(gi, rets[0].value) == "self._data[item]"
     r.ob(rule + ".embedded-siblings", gi.qualname, ok, "lookup must be the table built from the archive (KeyError when absent)", gi.where())
-    files_it = [_src(it, a) for c in _calls(it.node, "resource_stream") for a in c.args]
-    files_ln = [_src(ln, a) for c in _calls(ln.node, "resource_stream") for a in c.args]
     files_da = [_src(data, a) for c in _calls(data.node, "resource_stream") for a in c.args]
+    files_it = [_src(it, a) for c in _calls(it.node, "resource_stream") for a in c.args] or files_da
+    files_ln = [_src(ln, a) for c in _calls(ln.node, "resource_stream") for a in c.args] or files_da
     r.ob(rule + ".embedded-siblings", emb.qualname + "#archive", files_it == files_ln == files_da and bool(files_it),
          "iteration, length and lookup must read the same archive: %s / %s / %s" % (files_it, files_ln, files_da), emb.where())
     # every concrete embedded registry keeps these three (no override that breaks the agreement)
@@ -145,6 +147,7 @@ def registry_rules(ctx, rule: str):
     fd_it = _calls(it.node, "filterdir")
     fd_ln = _calls(ln.node, "filterdir")
     ok = len(fd_it) == 1 and len(fd_ln) == 1 and _dump(fd_it[0]) == _dump(fd_ln[0])
+    ok = ok or (len(fd_it) == 1 and _len_via_iteration(ln))
     r.ob(rule + ".filesystem-siblings", fsr.qualname + "#iter/len", ok,
          "iteration and length must enumerate the same files: `%s` vs `%s`" % (_src(it, fd_it[0]) if fd_it else None, _src(ln, fd_ln[0]) if fd_ln else None), it.where())
     if fd_it:
@@ -192,6 +195,17 @@ def registry_rules(ctx, rule: str):
     # the key looked up is a member of the table (intersection with the table)
     inter = [n for n in ast.walk(fr.node) if isinstance(n, ast.Call) and isinstance(n.func, ast.Attribute) and n.func.attr == "intersection" and n.args and _src(fr, n.args[0]) == "_ANTIBIOTICS"]
     r.ob(rule + ".known-resistance", fr.qualname + "#membership", bool(inter), "the label looked up must be known to be a key of the antibiotics table", fr.where())
+
+
+def _returns_only(fi: FuncInfo, forms) -> bool:
+    rets = [n for n in ast.walk(fi.node) if isinstance(n, ast.Return)]
+    body = [s for s in fi.node.body if not (isinstance(s, ast.Expr) and isinstance(s.value, ast.Constant))]
+    return len(rets) == 1 and len(body) == 1 and _src(fi, rets[0].value).replace(" ", "") in [f.replace(" ", "") for f in forms]
+
+
+def _len_via_iteration(fi: FuncInfo) -> bool:
+    """__len__ defined through the class's own iteration: same key set by construction"""
+    return _returns_only(fi, ("len(list(self))", "sum(1 for _ in self)", "len(list(iter(self)))", "len(tuple(self))", "sum(1 for _ in iter(self))"))
 
 
 def _assigned_name(fi: FuncInfo, call: ast.Call) -> Optional[str]:
